@@ -216,6 +216,30 @@ func respReleaseSite(c *cx, id string, f *eng.Fn, call *ast.CallExpr) {
 			}
 		}
 	}
+	// closesLate: the deferred closure reads the response variable when it
+	// RUNS (the named result itself, or a copy made inside the closure), not a
+	// copy made earlier in the function body
+	closesLate := func(ds *ast.DeferStmt) bool {
+		l, ok := ast.Unparen(ds.Call.Fun).(*ast.FuncLit)
+		if !ok {
+			return false
+		}
+		late := false
+		ast.Inspect(l.Body, func(x ast.Node) bool {
+			if cc, ok := x.(*ast.CallExpr); ok {
+				if sel, ok := ast.Unparen(cc.Fun).(*ast.SelectorExpr); ok && sel.Sel.Name == "Close" && isR(sel.X) {
+					if idn, ok := ast.Unparen(sel.X).(*ast.Ident); ok {
+						o := f.Info().ObjectOf(idn)
+						if o == rv || (o != nil && l.Pos() <= o.Pos() && o.Pos() < l.End()) {
+							late = true
+						}
+					}
+				}
+			}
+			return true
+		})
+		return late
+	}
 	sig := f.Sig()
 	resultIndex := func(v *types.Var) int {
 		if sig == nil {
@@ -291,6 +315,15 @@ func respReleaseSite(c *cx, id string, f *eng.Fn, call *ast.CallExpr) {
 			isDefer := func(q eng.Point, nd ast.Node) bool { return nd == ast.Node(cd.ds) }
 			if !g.MustPassBefore(g.After(apt), ex.pt, isDefer, nil) {
 				continue
+			}
+			// a return statement assigns the named results BEFORE deferred
+			// functions run: if r is itself a named result and this return sets
+			// it to something else (nil), the closure no longer sees the response
+			if ri := resultIndex(rv); ri >= 0 && ex.ret != nil && len(ex.ret.Results) == sig.Results().Len() && closesLate(cd.ds) {
+				if !isR(ex.ret.Results[ri]) {
+					why = "this return assigns " + f.Norm(ex.ret.Results[ri], nil) + " to the named result " + rv.Name() + " before the deferred function runs, so the deferred release sees that value instead of the response"
+					continue
+				}
 			}
 			k := 0
 			if ri := resultIndex(cd.v); ri >= 0 && ex.ret != nil && len(ex.ret.Results) > 0 {
@@ -861,4 +894,203 @@ func registrationWithdrawn(c *cx, id string, cls string, floor int) {
 		}
 	}
 	c.r.Floor(id, "cancellation exits of functions that register in "+cls, n, floor)
+}
+
+// errFieldDropped (E-err for error-carrying results): several helpers return
+// a struct that carries its own failure (`&Iter{err: err}` with every other
+// field zero). Selecting another field straight off the call result
+// (`Fetch(...).iter`) drops that error and hands on a zero (nil) field: the
+// next method call on it dereferences nil. Reported for every selector whose
+// operand is a call returning a (pointer to a) struct of this module that has
+// a field of type error, when the selected field is not that error field.
+func errFieldDropped(c *cx, id string, in func(f *eng.Fn) bool) int {
+	n := 0
+	for _, f := range c.allFns() {
+		if f.Body == nil || !in(f) {
+			continue
+		}
+		f.WalkBody(func(nd ast.Node) bool {
+			sel, ok := nd.(*ast.SelectorExpr)
+			if !ok {
+				return true
+			}
+			call, ok := ast.Unparen(sel.X).(*ast.CallExpr)
+			if !ok {
+				return true
+			}
+			if s := f.Info().Selections[sel]; s == nil || s.Kind() != types.FieldVal {
+				return true
+			}
+			t := f.Info().TypeOf(call)
+			if t == nil {
+				return true
+			}
+			if p, isPtr := t.(*types.Pointer); isPtr {
+				t = p.Elem()
+			}
+			named, ok := t.(*types.Named)
+			if !ok || named.Obj().Pkg() == nil || !strings.HasPrefix(named.Obj().Pkg().Path(), eng.ModPath) {
+				return true
+			}
+			st, ok := named.Underlying().(*types.Struct)
+			if !ok {
+				return true
+			}
+			errField := ""
+			for i := 0; i < st.NumFields(); i++ {
+				if eng.TypeStr(st.Field(i).Type()) == "error" {
+					errField = st.Field(i).Name()
+				}
+			}
+			if errField == "" {
+				return true
+			}
+			n++
+			c.r.Check(id, f, "field "+sel.Sel.Name+" taken from the result of "+f.CalleeID(call), "E-err: a result that carries its own error field is not picked apart without looking at that error", sel.Pos(), sel.Sel.Name == errField, "the result's "+errField+" field is dropped; after a failure "+sel.Sel.Name+" is the zero value (nil) and the next use dereferences it")
+			return true
+		})
+	}
+	return n
+}
+
+// errCarrierInvariant (E-inv): a struct that carries its own failure next to
+// the pointer its methods work on (`Iter{iter, err}`) relies on the invariant
+// "the pointer is nil only if err is not": the methods test err and then use
+// the pointer. Every composite literal of such a type that leaves all pointer
+// fields unset must set the error field to a value that is known non-nil.
+func errCarrierInvariant(c *cx, id string, in func(f *eng.Fn) bool) int {
+	n := 0
+	for _, f := range c.allFns() {
+		if f.Body == nil || !in(f) {
+			continue
+		}
+		g := f.Graph()
+		f.WalkBody(func(nd ast.Node) bool {
+			lit, ok := nd.(*ast.CompositeLit)
+			if !ok {
+				return true
+			}
+			t := f.Info().TypeOf(lit)
+			named, ok := t.(*types.Named)
+			if !ok || named.Obj().Pkg() == nil || !strings.HasPrefix(named.Obj().Pkg().Path(), eng.ModPath) {
+				return true
+			}
+			st, ok := named.Underlying().(*types.Struct)
+			if !ok {
+				return true
+			}
+			errField, ptrFields := "", []string{}
+			for i := 0; i < st.NumFields(); i++ {
+				fl := st.Field(i)
+				if eng.TypeStr(fl.Type()) == "error" {
+					errField = fl.Name()
+				} else if _, isPtr := fl.Type().(*types.Pointer); isPtr && fl.Name() != "session" && fl.Name() != "s" {
+					ptrFields = append(ptrFields, fl.Name())
+				}
+			}
+			if errField == "" || len(ptrFields) == 0 || !strings.HasSuffix(named.Obj().Name(), "Iter") {
+				return true
+			}
+			ev := structLitField(lit, errField)
+			setsPtr := false
+			for _, pf := range ptrFields {
+				if structLitField(lit, pf) != nil {
+					setsPtr = true
+				}
+			}
+			if setsPtr || len(lit.Elts) == 0 {
+				return true
+			}
+			n++
+			pt, _ := g.Where(lit)
+			ok2 := ev != nil && g.NilnessOf(ev, pt) == 1
+			what := "<unset>"
+			if ev != nil {
+				what = f.Norm(ev, nil)
+			}
+			c.r.Check(id, f, "iterator without an underlying iterator: "+named.Obj().Name()+"{"+errField+": "+what+"}", "E-inv: an iterator value whose inner iterator is nil carries a non-nil error (its methods test the error and then use the inner iterator)", lit.Pos(), ok2, "the error may be nil here: Next/Err then dereference the nil inner iterator")
+			return true
+		})
+	}
+	return n
+}
+
+// decoderLoopConsumes (E-dec3): a hand-written decoder that reads the children
+// of its element one token at a time has to consume every child START element
+// it meets (DecodeElement, Skip, or handing decoder and start to another
+// decoder): a child that is merely looked at leaves its content and its end
+// tag in the stream, the end tag is then taken for the END OF THE PARENT and
+// everything after it is lost ("did not consume entire element").
+func decoderLoopConsumes(c *cx, id string, in func(f *eng.Fn) bool) int {
+	n := 0
+	for _, f := range c.allFns() {
+		if f.Body == nil || !in(f) {
+			continue
+		}
+		g := f.Graph()
+		for _, tk := range f.Calls("encoding/xml.Decoder.Token") {
+			tp, ok := g.Where(tk)
+			if !ok || !g.Reachable(g.After(tp), tp, nil, nil) {
+				continue // not in a loop
+			}
+			ts, ok := ast.Unparen(tk.Fun).(*ast.SelectorExpr)
+			if !ok {
+				continue
+			}
+			dec := f.Norm(ts.X, nil)
+			consumes := func(q eng.Point, nd ast.Node) bool {
+				found := false
+				ast.Inspect(nd, func(x ast.Node) bool {
+					cc, ok := x.(*ast.CallExpr)
+					if !ok || cc == tk {
+						return !found
+					}
+					switch f.CalleeID(cc) {
+					case "encoding/xml.Decoder.DecodeElement", "encoding/xml.Decoder.Skip", "encoding/xml.Decoder.Decode":
+						if s2, ok := ast.Unparen(cc.Fun).(*ast.SelectorExpr); ok && f.Norm(s2.X, nil) == dec {
+							found = true
+						}
+					default:
+						// the decoder handed to another function
+						for _, a := range cc.Args {
+							if f.Norm(a, nil) == dec {
+								found = true
+							}
+						}
+					}
+					return !found
+				})
+				return found
+			}
+			// edges that establish "the token is a start element"
+			for _, ce := range g.CondEdges() {
+				isStart := false
+				for _, a := range ce.Atoms {
+					if eng.Glob("istype(*;encoding/xml.StartElement)", a.S) || eng.Glob("commaok(*.(encoding/xml.StartElement))", a.S) {
+						isStart = true
+					}
+				}
+				if !isStart || !g.Reachable(g.After(tp), eng.Point{B: ce.E.B, I: 0}, nil, nil) {
+					continue
+				}
+				n++
+				from := g.EdgeTarget(ce.E)
+				bad := ""
+				if g.Reachable(from, tp, nil, consumes) {
+					bad = "the loop can read the next token without having consumed the child element"
+				}
+				for _, rs := range g.Returns {
+					if g.RetKindOf(rs) == eng.RetError {
+						continue
+					}
+					rp, _ := g.Where(rs)
+					if bad == "" && g.Reachable(from, rp, nil, consumes) && !consumes(rp, rs) {
+						bad = "a non-error return at " + c.p.Pos(rs.Pos()) + " leaves a child element unconsumed"
+					}
+				}
+				c.r.Check(id, f, "child start element consumed in the token loop of "+dec, "E-dec3: every child start element met by a hand-written token loop is decoded or skipped before the next token is read", g.Blocks[ce.E.B].Nodes[len(g.Blocks[ce.E.B].Nodes)-1].Pos(), bad == "", bad)
+			}
+		}
+	}
+	return n
 }
